@@ -175,8 +175,8 @@ def applyCustomTransferFunction(signal, SR, tf_freqs, tf_amp, invert=False):
 
     # Step 1: resample to fftfreq type axis
     freqax = fftfreq(npts, 1 / SR)
-    freqax_pos = freqax[: npts // 2]
-    freqax_neg = freqax[npts // 2 :]
+    freqax_pos = freqax[: (npts + 1) // 2]
+    freqax_neg = freqax[(npts + 1) // 2 :]
 
     resampled_pos = np.interp(freqax_pos, tf_freqs, tf_amp)
     resampled_neg = np.interp(-freqax_neg[::-1], tf_freqs, tf_amp)
